@@ -71,6 +71,10 @@ function PB() {} PB.prototype = Object.create(PA.prototype); PB.prototype.x = "b
 var pc = new PB(); pc.z = 1;
 __probe("proto2.lookup", function () { return [pc.x, pc.y, pc.z, pc instanceof PA, new PB().x].join(); });`},
 
+	// accessor: getter+setter closing over state, plus every degenerate accessor shape:
+	// setter-only and getter-only (literal and defineProperty), both halves undefined, a
+	// get+set pair whose getter was later removed, accessors on a prototype, on an array
+	// index, on an arguments index and (setter-only) on the global object.
 	{Name: "accessor", Src: `
 var acc = (function () {
   var s = 1, o = {};
@@ -78,7 +82,26 @@ var acc = (function () {
   return o;
 })();
 acc.p = 2;
-__probe("accessor.p", function () { return acc.p; });`},
+var asLog = [];
+function asPut(tag) { return function (v) { asLog[asLog.length] = tag + ":" + v; }; }
+var asLit = { set x(v) { asLog[asLog.length] = "lit:" + v; }, get y() { return "gy"; } };
+var asDef = {};
+Object.defineProperty(asDef, "so", { set: asPut("so"), configurable: true, enumerable: true });
+Object.defineProperty(asDef, "go", { get: function () { return "go" + asLog.length; }, configurable: true });
+Object.defineProperty(asDef, "none", { get: undefined, set: undefined, configurable: true });
+Object.defineProperty(asDef, "gs", { get: function () { return "gs"; }, set: asPut("gs"), configurable: true });
+Object.defineProperty(asDef, "gs", { get: undefined });
+function AsP() {}
+Object.defineProperty(AsP.prototype, "inh", { set: asPut("inh"), configurable: true });
+Object.defineProperty(AsP.prototype, "ro", { get: function () { return "ro"; } });
+var asI = new AsP();
+var asArr = [1, 2]; Object.defineProperty(asArr, "1", { set: asPut("arr"), configurable: true, enumerable: true });
+var asArgs = (function (a, b) { Object.defineProperty(arguments, "0", { set: asPut("args"), configurable: true }); return arguments; })(1, 2);
+Object.defineProperty(this, "asG", { set: asPut("g"), configurable: true });
+asLit.x = 1; asDef.so = 2;
+__probe("accessor.p", function () { return acc.p; });
+__probe("accessor.log", function () { return asLog.join(); });
+__probe("accessor.read", function () { return [asLit.x, asLit.y, asDef.so, asDef.go, asDef.none, asDef.gs, asI.inh, asI.ro, asArr[1], asArgs[0], asArgs[1], typeof asG].join(); });`},
 
 	{Name: "attrs", Src: `
 var at = {};
@@ -193,6 +216,32 @@ __probe("newfn.state", function () { return [nfF(1, 2), nfI.get(), nfI.construct
 	{Name: "bridged", Go: func(vm *otto.Otto) { vm.Set("gs", &BridgedT{N: 7, S: "go"}) }, Src: `
 var gsHolder = { ref: gs };
 __probe("bridged.read", function () { return [gs.N, gs.S, gsHolder.ref === gs].join(); });`},
+
+	// degenerate: data properties holding every kind of value, and the empty / minimal
+	// instance of every container kind (object, array, function, holes-only array, object
+	// whose only property is non-enumerable, environment record with zero bindings, bound
+	// function with zero bound arguments, arguments object with zero actuals).
+	{Name: "degenerate", Src: `
+var vk = { u: undefined, n: null, nan: NaN, nz: -0, es: "", t: true, f: false, inf: -Infinity, big: 1e21, str: "s",
+  fn: function () {}, bfn: function () { return this; }.bind(null), arr: [], arr2: [undefined, null, NaN, -0, ""],
+  date: new Date(NaN), re: new RegExp(""), err: new Error(), so: new String(""), no: new Number(NaN), bo: new Boolean(true), obj: {} };
+var vkArr = [undefined, null, NaN, -0, "", function () {}, [], {}];
+var emO = {}, emA = [], emF = function () {}, emN = new Array(3), emNullP = Object.create(null);
+var emNE = Object.defineProperty({}, "hidden", { value: 1, enumerable: false, writable: true, configurable: true });
+var emWith; with ({}) { emWith = function () { return typeof emZ; }; }
+var emB0 = function (a) { return [this === emO, a].join(); }.bind(emO);
+var emArgs0 = (function () { return arguments; })();
+var emArgsF = (function (a, b) { return { args: arguments, get: function () { return [a, b].join("|"); } }; })();
+__probe("degenerate.values", function () {
+  return [typeof vk.u, "u" in vk, vk.n === null, vk.nan !== vk.nan, 1 / vk.nz, vk.es.length, vk.t, vk.f, vk.inf, vk.big, typeof vk.fn(), typeof vk.bfn(),
+    vk.arr.length, vk.arr2.length, 1 / vk.arr2[3], 0 in vk.arr2, vk.date.getTime() !== vk.date.getTime(), String(vk.re), vk.err.message === "", vk.so.length,
+    vk.no.valueOf() !== vk.no.valueOf(), vk.bo.valueOf(), vkArr.length, 0 in vkArr, 1 / vkArr[3]].join();
+});
+__probe("degenerate.empties", function () {
+  var k = []; for (var n in emNE) { k[k.length] = n; }
+  return [Object.keys(emO).length, emA.length, emF.length, emN.length, 0 in emN, k.length, emNE.hidden, emWith(), emB0(5), emArgs0.length, 0 in emArgs0,
+    emArgsF.args.length, emArgsF.get(), Object.getPrototypeOf(emNullP) === null].join();
+});`},
 }
 
 // mutation is one mutation program M. Needs names the ingredient whose heap it
@@ -233,6 +282,8 @@ var mutations = []mutation{
 	{Name: "proto2.swap", Needs: "proto2", Src: `PB.prototype = { x: "swapped" }; new PB().x + pc.x`},
 	{Name: "accessor.set", Needs: "accessor", Src: `acc.p = 5; acc.p`},
 	{Name: "accessor.redefine", Needs: "accessor", Src: `Object.defineProperty(acc, "p", { value: "data" }); acc.p`},
+	{Name: "accessor.assignall", Needs: "accessor", Src: `asLit.x = "a"; asLit.y = "b"; asDef.so = "c"; asDef.go = "d"; asDef.none = "e"; asDef.gs = "f"; asI.inh = "g"; asI.ro = "r"; asArr[1] = "h"; asArgs[0] = "i"; asG = "j"; asLog.join()`},
+	{Name: "accessor.reshape", Needs: "accessor", Src: `Object.defineProperty(asDef, "so", { get: function () { return 1; } }); Object.defineProperty(asDef, "none", { set: asPut("none") }); asDef.none = 1; delete asLit.x; Object.defineProperty(asDef, "go", { get: undefined }); [asDef.so, asDef.go, asLog.join()].join()`},
 	{Name: "attrs.define", Needs: "attrs", Src: `Object.defineProperty(at, "ne", { enumerable: true }); at.nw = 9; delete at.nc; Object.keys(at).join()`},
 	{Name: "attrs.delete", Needs: "attrs", Src: `delete at.nw; delete at.ne; Object.getOwnPropertyNames(at).join()`},
 	{Name: "frozen.write", Needs: "frozen", Src: `fz.a = 2; fz.b.c = 3; fz.n = 1; [fz.a, fz.b.c, fz.n].join()`},
@@ -263,5 +314,8 @@ var mutations = []mutation{
 	{Name: "globals.assign", Needs: "globals", Src: `gv = 10; gi = 20; ge = 30; gv + gi + ge`},
 	{Name: "caller.redefine", Needs: "caller", Src: `clG = function () { return "other"; }; clG()`},
 	{Name: "newfn.edit", Needs: "newfn", Src: `nfO = "?"; nfCtor.prototype.get = function () { return -this.v; }; nfCtor.stat.s = 2; nfI.v = 6; nfF(1, 2) + nfI.get()`},
+	{Name: "degenerate.rewrite", Needs: "degenerate", Src: `vk.u = 0; vk.n = undefined; vk.nan = null; vk.nz = 0; vk.es = "x"; vkArr[3] = 0; vkArr[0] = -0; delete vk.f; vk.arr.push(undefined); vk.so.p = vk.no; 1 / vk.nz`},
+	{Name: "degenerate.fill", Needs: "degenerate", Src: `emO.a = 1; emA.push(1); emF.p = 1; emNE.hidden = 2; emNE.vis = 1; emArgs0[0] = "z"; emArgsF.args[0] = "q"; emNullP.k = 1; emN[1] = 1; emZ = 0; [emB0(6), emArgsF.get(), emWith(), emArgs0.length].join()`},
+	{Name: "degenerate.lock", Needs: "degenerate", Src: `Object.freeze(emO); Object.preventExtensions(emA); Object.seal(emNullP); emO.x = 1; emNullP.y = 1; [Object.isFrozen(emO), Object.isExtensible(emA), "x" in emO].join()`},
 	{Name: "bridged.rebind", Needs: "bridged", Src: `gsHolder.ref = null; gs = 1; typeof gs`},
 }
